@@ -161,7 +161,9 @@ struct markerStruct
                                                                                \
     T copy_and_verify(std::function<T(tainted<T, T_Sbx>)> verifier)            \
     {                                                                          \
+      RLBOX_VERIF_INTERLEAVE("cv.structval.read");                             \
       tainted<T, T_Sbx> val(*this);                                            \
+      RLBOX_VERIF_INTERLEAVE("cv.structval.verifier");                         \
       return verifier(val);                                                    \
     }                                                                          \
                                                                                \
